@@ -411,6 +411,7 @@ type loopSpec struct {
 	decreases  *clause
 	exits      []*clause // asserted on every edge leaving the loop
 	bodies     []*clause // asserted at every back edge about ONE iteration (events are iteration-local)
+	entries    []*clause // asserted when the loop is entered (never assumed at the head)
 }
 
 type slotClause struct {
@@ -452,6 +453,7 @@ type FuncSpec struct {
 	reads         []string
 	opaque        map[string]bool // callees whose postconditions are not unfolded here (only lemmas about them are used)
 	safety        bool
+	nilsafe       []string // Type.Field designators whose values must be nil-checked before use
 	nopanic       bool
 	arithChecked  bool
 	pure          bool
@@ -538,7 +540,7 @@ func splitLabel(s string) (label, rest string) {
 
 var clauseKeywords = map[string]bool{"func": true, "property": true, "ghost": true, "requires": true, "ensures": true, "loop": true,
 	"modifies": true, "reads": true, "safety": true, "nopanic": true, "arith": true, "pure": true, "slots": true, "kinds": true, "spec": true,
-	"lemma": true, "axiom": true, "assumed": true, "cover": true, "timeout": true, "macro": true, "immutable": true, "opaque": true, "persite": true, "option": true, "loops": true}
+	"lemma": true, "axiom": true, "assumed": true, "cover": true, "timeout": true, "macro": true, "immutable": true, "opaque": true, "persite": true, "option": true, "loops": true, "nilsafe": true}
 
 // parseContracts parses the //@ lines of one package.
 func (ss *SpecSet) parseContracts(pkg string, lines []specLine) {
@@ -737,6 +739,8 @@ func (ss *SpecSet) parseContracts(pkg string, lines []specLine) {
 				ls.exits = append(ls.exits, c)
 			} else if what == "body" {
 				ls.bodies = append(ls.bodies, c)
+			} else if what == "entry" {
+				ls.entries = append(ls.entries, c)
 			} else {
 				fail(l, "unknown loop clause %q", what)
 			}
@@ -782,6 +786,10 @@ func (ss *SpecSet) parseContracts(pkg string, lines []specLine) {
 			cur.assumeOnly = true
 		case "timeout":
 			fmt.Sscanf(rest, "%d", &cur.timeout)
+		case "nilsafe":
+			// `nilsafe pkg.Type.Field ...`: pointers read from these (nil-by-design) fields are
+			// never dereferenced unguarded in this function
+			cur.nilsafe = append(cur.nilsafe, strings.Fields(rest)...)
 		case "loops":
 			// number of loops of the function the ordinal `loop <n>` clauses were written for
 			fmt.Sscanf(rest, "%d", &cur.loopCount)
